@@ -75,10 +75,10 @@ def gen_cases(tier, seed):
         for t in programs.trees(programs.SUB5, 2, all_axes=False, scalars=programs.SCALARS[:2]):
             cases.append(dict(kind="op", spec=t, shallow=True))
     for name in sorted(FUNCS):
-        for v in range(FUNCS[name][0]):
+        for v in range(FUNCS[name][0] + (2 if FUNCS[name][0] == 5 else 0)):   # 5: negative strides, 6: read-only arguments
             cases.append(dict(kind="func", name=name, variant=v))
     for name in sorted(PROXES):
-        for v in range(5):
+        for v in range(7):
             cases.append(dict(kind="prox", name=name, variant=v))
     # process histories: ordered pairs of differently-typed calls, each pair in a FRESH interpreter
     hist_names = [n for n in sorted(FUNCS) if n.startswith("thresh.")] + ["prox.L1Reg", "prox.LInfProj", "prox.L1Proj"]
@@ -251,16 +251,22 @@ def _arr(shape, dt, a3=0, a4=None):
         sl = tuple(slice(None, None, 2) for _ in shape)
         big[sl] = a
         a = big[sl]
+    elif layout == "R":  # negative strides along every axis
+        rev = tuple(slice(None, None, -1) for _ in shape)
+        a = np.ascontiguousarray(a[rev])[rev]
+    elif layout == "O":  # read-only
+        a.setflags(write=False)
     return a
 
 
 _DT = [np.complex128, np.complex64, np.float64]
-_LAY = ["C", "C", "C", "F", "S"]
+_LAY = ["C", "C", "C", "F", "S", "R", "O"]
+_LAYNAME = {"F": "Fortran-ordered", "S": "strided", "R": "negative-stride", "O": "read-only"}
 
 
 def _v(variant):
     """variant -> (dtype, layout)"""
-    return _DT[variant % 3] if variant < 3 else np.complex128, _LAY[variant % 5]
+    return _DT[variant % 3] if variant < 3 else np.complex128, _LAY[variant]
 
 
 def _mk_funcs():
@@ -473,14 +479,22 @@ def run_func(case, seed):
     def V(oracle, when, detail):
         viol.append(dict(oracle=oracle, key=dict(site=name, when=when), detail=detail))
 
-    fn, args, mutable = FUNCS[name][1](variant)
+    def build_args():
+        fn_, args_, mut_ = FUNCS[name][1](variant)
+        if variant == 6:
+            for i in mut_:      # an output argument has to be writeable
+                if isinstance(args_[i], np.ndarray):
+                    args_[i] = np.array(args_[i])
+        return fn_, args_, mut_
+    fn, args, mutable = build_args()
     before = _bytes_of(args)
     np.random.seed(seed % 2 ** 32)
     try:
         out1 = fn(*args)
     except Exception as e:
-        if variant % 3 == 0 and variant < 3 or variant >= 3:
+        if (variant % 3 == 0 and variant < 3 or variant >= 3) and variant != 6:
             raise
+        # (a refusal of a read-only argument is loud, hence tolerated as well)
         # a refusal of a complex64 / real-dtype argument is tolerated (nothing silently changed)
         after = _bytes_of(args)
         for i, (b, a) in enumerate(zip(before, after)):
@@ -495,7 +509,7 @@ def run_func(case, seed):
                 i, name, variant, _v(variant)[0].__name__, _v(variant)[1]))
     # layout invariance: Fortran-ordered / strided arguments must give the values of their C-contiguous twins
     if variant >= 3:
-        fn3, args3, _ = FUNCS[name][1](variant)
+        fn3, args3, _ = build_args()
         args3 = [np.ascontiguousarray(a) if isinstance(a, np.ndarray) else
                  ([np.ascontiguousarray(x) for x in a] if isinstance(a, list) and a and isinstance(a[0], np.ndarray) else a) for a in args3]
         np.random.seed(seed % 2 ** 32)
@@ -504,7 +518,7 @@ def run_func(case, seed):
         c3 = out3 if not mutable else args3[mutable[0]]
         if not _same_values(c1, c3):
             V("layout-invariance", "non-contiguous argument", "%s gives different values for a %s argument than for its C-contiguous copy" % (
-                name, "Fortran-ordered" if variant == 3 else "strided"))
+                name, _LAYNAME[_LAY[variant]]))
     # a returned array belongs to the caller: scribbling over it must not influence a later call (memoised results)
     if isinstance(out1, np.ndarray) and out1.flags.writeable and not mutable:
         try:
@@ -513,7 +527,7 @@ def run_func(case, seed):
         except Exception:
             pass
     # repeatability on fresh, equal arguments (and same RNG seed)
-    fn2, args2, _ = FUNCS[name][1](variant)
+    fn2, args2, _ = build_args()
     np.random.seed(seed % 2 ** 32)
     out2 = fn2(*args2)
     cmp1 = out1c if not mutable else args[mutable[0]]
@@ -553,7 +567,7 @@ def run_prox(case, seed):
     dt = _DT[variant] if variant < 3 else np.complex128
     if name.startswith("BoxConstraint"):
         dt = np.float64 if variant != 1 else np.float32
-    x = _arr(P.shape, dt, 8, "C" if variant < 3 else ("F" if variant == 3 else "S"))
+    x = _arr(P.shape, dt, 8, _LAY[variant])
     if name == "PsdProj":
         x = x + x.conj().T
     x0 = x.copy()
@@ -581,7 +595,7 @@ def run_prox(case, seed):
         yc = PROXES[name]()(0.5, np.ascontiguousarray(x0))
         if not _same_values(outs[0], yc):
             V("layout-invariance", "non-contiguous input", "prox %s gives different values for a %s input than for its C-contiguous copy" % (
-                name, "Fortran-ordered" if variant == 3 else "strided"))
+                name, _LAYNAME[_LAY[variant]]))
     if outs[0] is not None and outs[2] is not None and not _same(outs[0], outs[2]):
         V("determinism", "repeated call", "prox %s: third call (same alpha) differs from the first" % name)
     return dict(states=3, transitions=trans, nontrivial=True,
